@@ -3,4 +3,18 @@ package main
 import "fmt"
 
 func replay(args []string) error { return fmt.Errorf("replay: not built yet") }
-func conc(args []string) error   { return fmt.Errorf("conc: not built yet") }
+
+func conc(args []string) error {
+	if len(args) == 0 {
+		return fmt.Errorf("usage: vdrive conc stress|sched|parallel ...")
+	}
+	switch args[0] {
+	case "stress":
+		return concStress(args[1:])
+	case "sched":
+		return concSched(args[1:])
+	case "parallel":
+		return concParallel(args[1:])
+	}
+	return fmt.Errorf("unknown conc command %q", args[0])
+}
